@@ -75,6 +75,19 @@ impl<const WIDTH: usize, const RATE: usize, C: ChallengerPermConfig>
         }
     }
 
+    /// Verification hook (guard: `--cfg p3_recursion_verif`): read-only view of the sponge
+    /// state `(state, input_buffer, output_buffer, initialized, duplexed_once)`.
+    #[cfg(p3_recursion_verif)]
+    pub fn verif_snapshot(&self) -> (Vec<Target>, Vec<Target>, Vec<Target>, bool, bool) {
+        (
+            self.state.clone(),
+            self.input_buffer.clone(),
+            self.output_buffer.clone(),
+            self.initialized,
+            self.duplexed_once,
+        )
+    }
+
     /// Initialize the challenger state with zeros.
     ///
     /// This must be called before any observe/sample operations.
